@@ -128,6 +128,11 @@ def soljson(d):
     return sorted([[C.enc(k), [C.toF(v).numerator, C.toF(v).denominator]] for k, v in d.items()])
 
 
+def twin_ok(case):
+    # also run under the second label decoding (common.twin_labels); Matrix kinds index by int
+    return C.no_matrix(case)
+
+
 def run_impl(case):
     import qubovert as qv
     out = {"checks": []}
